@@ -116,6 +116,11 @@ SEARCH_SOURCES = [
     "void f(bool t, uint u, int i, float x) { int w = k(t + 1); w = k(u, 1); w = k(x); uint v = t ? 1 : 2; const int ci = 3; float ff = ci + 1.5; }\n",
     "struct S { int line; float sample; };\nstatic int point;\nint triangle(int discard_) { int in_ = discard_; int out_ = in_ + point; return out_; }\n",
     "void f(bool t, uint u, int i, float x) { float y = -1.5f; int j = -3; uint v = ~0u; bool c = !i; int n = ~t; y = -x; j = -(-3); y = t ? 1 : 2.5; y = i ? x : 1; u = u << 1; i = i >> t; }\n",
+    # since fix batch 2: vector / matrix operations with a literal operand (40c6233), mutable places for out / inout arguments,
+    # assignments and ++ / -- (4575004, b359800, 3758fdd)
+    "void g(out float x, inout int y) { x = 1; y += 1; }\nstruct S { float3 v; int q; };\n"
+    "void f(float2x2 m, uint2 u, bool3 c, int3 w, int i) { float2x2 r = m * 2; int3 z = c + 1; float3 q = w * 1.5; r = m + i; "
+    "S s; float a; g(a, i); g(s.v.x, s.q); s.q++; --s.v.y; float arr[2]; g(arr[1], i); }\n",
 ]
 
 
@@ -154,7 +159,7 @@ SPEC = {
         "dx_params", "slots_stable_reread", "annotations_stable", "reread_names_group",
         "reread_table_agrees", "cast_drop_agrees", "reread_only_int32",
         "reelab_no_new_casts", "reelab_stmt_no_new_casts", "export_is_source", "unelab_is_export", "renamed_exists",
-        "reelab_idempotent", "reelab_fails_out_argument",
+        "reelab_idempotent", "out_arguments_plain", "out_arguments_plain_stmt", "out_argument_conversion_rejected",
         "bridge_square", "skeleton_and_constants", "reread_payloads_as_modelled", "leaf_value_preserved", "parsesBack_of_c09", "fixpoint_expr", "fixpoint_expr_text", "fixpoint_stmt",
         "namesAgreeEx", "idxInjEx"]] + LEG_THEOREMS,
     "harness": "c04",
@@ -181,8 +186,15 @@ SPEC = {
                   "constants lose their kind, negative constants become minus applied to the magnitude, casts to literal types are "
                   "dropped, every function has a name of its own) elaborates to the same IR again: no conversion added or lost, same "
                   "overload, same literal kinds; also for expression statements, return and initialised definitions; idempotent from "
-                  "the first generation on. Where it is false the negation is proved with a witness and replayed: a Cast passed for an "
-                  "out / inout parameter (T <-> T1) makes the emitted text rejected (known finding). (2) bridge_square: the exporter "
+                  "the first generation on; every written operand (=, ++, --) and every out / inout argument is accepted as a mutable "
+                  "place again (check_mutable_place asks the IR type of the same node in the exported environment). The theorem has "
+                  "no exception any more: until fix 3758fdd it needed the hypothesis that no Cast is passed for an out / inout "
+                  "parameter (T <-> T1; the witness reelab_fails_out_argument and a known finding); now check_output_arguments runs "
+                  "on the converted arguments, the hypothesis is the theorem out_arguments_plain (every accepted expression / "
+                  "statement, any build mode), and the former witness input is rejected (out_argument_conversion_rejected; the two "
+                  "reproducers stay in the corpus, findings converted to fixed). Vector / matrix operations with a literal operand "
+                  "(fix 40c6233: the working type is remapped from IntLiteral / FloatLiteral to int / float) are covered: the "
+                  "working kind of the re-elaborated operands may differ but not after the remap (arith_stable_remap). (2) bridge_square: the exporter "
                   "model of C01 (GenHlsl.genExpr, tied by C01's correspondence) read back by the front end (parse_literal, name lookup) "
                   "is such a tree. (3) fixpoint_expr / fixpoint_expr_text: composition of (1), (2), the C09 round trip "
                   "(roundtrip_expr_partial, for cast-free trees) and injectivity of skeleton + constants: the second generation of an "
